@@ -314,16 +314,18 @@ impl Store {
 impl Store {
     /// Verification hook H5: when the harness controls the age of the open transaction, every
     /// access (`tables()` / `modify()`) is numbered; at the chosen access the open write
-    /// transaction is treated as older than `MAX_COMMIT_DELAY` (committed, a new one is begun by
-    /// the caller), at all others its age is reset so that wall-clock time never interferes.
+    /// transaction is made to look older than `MAX_COMMIT_DELAY` (so that the store's own age
+    /// check decides what happens), at all others its age is reset so that wall-clock time never
+    /// interferes.
     fn verif_access(&mut self) -> Result<()> {
         if let Some(aged) = crate::verif::next_access_is_aged() {
-            if aged {
-                if let CurrentTransaction::Write(w) = std::mem::take(&mut self.transaction) {
-                    w.commit()?;
-                }
-            } else if let CurrentTransaction::Write(w) = &mut self.transaction {
-                w.since = n0_future::time::Instant::now();
+            if let CurrentTransaction::Write(w) = &mut self.transaction {
+                let now = n0_future::time::Instant::now();
+                w.since = if aged {
+                    now.checked_sub(MAX_COMMIT_DELAY * 4).unwrap_or(now)
+                } else {
+                    now
+                };
             }
         }
         Ok(())
